@@ -125,5 +125,34 @@ def compactOutcome (φ : Assign) (k : Nat) (nSrc : Nat) (localCopies : Bool) (re
     | _ => (.err, false, 2)
   | _ => (.err, false, 1)
 
+/-! ### `DB.init` → `checkDatabaseBehindReplica` (/repo/db.go) -/
+
+inductive InitRes
+  | ok
+  | errList   -- "check database behind replica: get replica position: …" — init fails, retried by the next Sync
+  | errOpen   -- "… open remote L0 file: …" — init fails after the local level-0 directory was cleared
+deriving DecidableEq, Repr
+
+/-- `checkDatabaseBehindReplica`: one listing of level 0 (`MaxLTXFileInfo`); if the local position is
+    below the remote maximum (database restored from a backup / local state lost) the local level-0
+    directory is cleared and the newest remote level-0 file is fetched (one `OpenLTXFile`), so that the
+    next local TXID continues after the remote maximum.  Any client error fails `init`. -/
+def initCheck (φ : Assign) (r : R) : R × InitRes :=
+  match φ r.k with
+  | .ok =>
+    if maxOf r.remote = 0 ∨ maxOf r.remote ≤ r.dbPos then ({ r with k := r.k + 1 }, .ok)
+    else
+      match φ (r.k + 1) with
+      | .ok => ({ r with dbPos := maxOf r.remote, localMin := maxOf r.remote, pos := 0, k := r.k + 2 }, .ok)
+      | _ => ({ r with dbPos := 0, pos := 0, k := r.k + 2 }, .errOpen)
+  | _ => ({ r with k := r.k + 1 }, .errList)
+
+/-- first `DB.SyncAndWait` of a freshly opened DB object: `init` (behind-replica check), then — only
+    if it succeeded — the replica sync.  `none` = an error was returned (no acknowledgement). -/
+def openSyncAndWait (φ : Assign) (r : R) : R × Option Bool :=
+  match initCheck φ r with
+  | (r1, .ok) => let x := syncAndWaitAck φ r1; (x.1, some x.2)
+  | (r1, _) => (r1, none)
+
 end ReplicaSync
 end Litestream
